@@ -4,6 +4,11 @@
 #include "fft.h"
 #include <cassert>
 #include <cmath>
+#ifdef TFHE_VERIF
+#include "../../tfhe_verif_hooks.h"
+#else
+#define TFHE_VERIF_EVENT(ev, obj, buf, a, b)
+#endif
 
 FFT_Processor_nayuki::FFT_Processor_nayuki(const int32_t N): _2N(2*N),N(N),Ns2(N/2) {
     real_inout = (double*) malloc(sizeof(double) * _2N);
@@ -15,6 +20,7 @@ FFT_Processor_nayuki::FFT_Processor_nayuki(const int32_t N): _2N(2*N),N(N),Ns2(N
 	omegaxminus1[x]=cplx(cos(x*M_PI/N)-1., sin(x*M_PI/N)); // instead of cos(x*M_PI/N)-1. + sin(x*M_PI/N) * 1i 
 	//exp(i.x.pi/N)-1
     }
+    TFHE_VERIF_EVENT("ProcCtor", this, real_inout, 0, 0);
 }
 
 void FFT_Processor_nayuki::check_alternate_real() {
@@ -33,6 +39,7 @@ void FFT_Processor_nayuki::check_conjugate_cplx() {
 
 void FFT_Processor_nayuki::execute_reverse_int(cplx* res, const int32_t* a) {
     double* res_dbl=(double*) res;
+    TFHE_VERIF_EVENT("FftBegin", this, real_inout, 0, 0);
     for (int32_t i=0; i<N; i++) real_inout[i]=a[i]/2.;
     for (int32_t i=0; i<N; i++) real_inout[N+i]=-real_inout[i];
     for (int32_t i=0; i<_2N; i++) imag_inout[i]=0;
@@ -42,6 +49,7 @@ void FFT_Processor_nayuki::execute_reverse_int(cplx* res, const int32_t* a) {
 	res_dbl[i]=real_inout[i+1];
 	res_dbl[i+1]=imag_inout[i+1];
     }
+    TFHE_VERIF_EVENT("FftEnd", this, real_inout, 0, 0);
     for (int32_t i=0; i<Ns2; i++) {
 	assert(abs(cplx(real_inout[2*i+1],imag_inout[2*i+1])-res[i])<1e-20);
     }
@@ -51,12 +59,14 @@ void FFT_Processor_nayuki::execute_reverse_int(cplx* res, const int32_t* a) {
 void FFT_Processor_nayuki::execute_reverse_torus32(cplx* res, const Torus32* a) {
     static const double _2pm33 = 1./double(INT64_C(1)<<33);
     int32_t* aa = (int32_t*) a;
+    TFHE_VERIF_EVENT("FftBegin", this, real_inout, 1, 0);
     for (int32_t i=0; i<N; i++) real_inout[i]=aa[i]*_2pm33;
     for (int32_t i=0; i<N; i++) real_inout[N+i]=-real_inout[i];
     for (int32_t i=0; i<_2N; i++) imag_inout[i]=0;
     check_alternate_real();
     fft_transform_reverse(tables_reverse,real_inout,imag_inout);
     for (int32_t i=0; i<Ns2; i++) res[i]=cplx(real_inout[2*i+1],imag_inout[2*i+1]);
+    TFHE_VERIF_EVENT("FftEnd", this, real_inout, 1, 0);
     check_conjugate_cplx();
 }
 
@@ -64,6 +74,7 @@ void FFT_Processor_nayuki::execute_direct_torus32(Torus32* res, const cplx* a) {
     static const double _2p32 = double(INT64_C(1)<<32);
     static const double _1sN = double(1)/double(N);
     //double* a_dbl=(double*) a;
+    TFHE_VERIF_EVENT("FftBegin", this, real_inout, 2, 0);
     for (int32_t i=0; i<N; i++) real_inout[2*i]=0;
     for (int32_t i=0; i<N; i++) imag_inout[2*i]=0;
     for (int32_t i=0; i<Ns2; i++) real_inout[2*i+1]=real(a[i]);
@@ -81,11 +92,13 @@ void FFT_Processor_nayuki::execute_direct_torus32(Torus32* res, const cplx* a) {
 #endif
     fft_transform(tables_direct,real_inout,imag_inout);
     for (int32_t i=0; i<N; i++) res[i]=Torus32(int64_t(real_inout[i]*_1sN*_2p32));
+    TFHE_VERIF_EVENT("FftEnd", this, real_inout, 2, 0);
     //pas besoin du fmod... Torus32(int64_t(fmod(rev_out[i]*_1sN,1.)*_2p32));
     check_alternate_real();
 }
 
 FFT_Processor_nayuki::~FFT_Processor_nayuki() {
+    TFHE_VERIF_EVENT("ProcDtor", this, real_inout, 0, 0);
     fft_destroy(tables_direct);
     fft_destroy(tables_reverse);
     free(real_inout); 
